@@ -213,8 +213,15 @@ def guard_obligation(ctx, col: Collector, rule: str, fi: FuncInfo, name: str,
                 except Exception:
                     pass
     if not gnodes:
-        col.bad(rule, cons + ':present', f'{fi.qualname}: no branch test establishes `{what or name}` - the guard is missing '
-                f'(or tests something else)', node=fi.node, file=fi.file)
+        # positive evidence of a missing guard = the expected exception class is raised nowhere in the function or in the
+        # package functions it calls; if it still is, the guard was only rewritten in a form this rule does not read
+        still = raises_in_closure(ctx, fi, exc_ids)
+        if still:
+            col.unk(rule, cons + ':present', f'{fi.qualname}: the check `{what or name}` is not in a recognised form (the expected exception is still raised at '
+                    f'{still[0]}); cannot judge it', node=fi.node, file=fi.file)
+        else:
+            col.bad(rule, cons + ':present', f'{fi.qualname}: no branch test establishes `{what or name}` and {sorted(e.split(":")[-1] for e in exc_ids)} is raised nowhere '
+                    f'in it (or in the helpers it calls) - the guard is missing', node=fi.node, file=fi.file)
         return False
     # several tests may match the literal (e.g. a retry before the final check): the guards are
     # those whose true branch always raises
@@ -328,6 +335,37 @@ def guard_obligation(ctx, col: Collector, rule: str, fi: FuncInfo, name: str,
             col.ok(rule, cons + ':dominates', f'guard `{what or name}` dominates all {n_prot} protected path positions',
                    node=fi.node, file=fi.file)
     return ok_all
+
+
+def raises_in_closure(ctx, fi: FuncInfo, exc_ids, depth: int = 2) -> List[str]:
+    """Places (file:line) in fi and in the package functions it calls (to `depth`) that raise one of exc_ids."""
+    from ..calls import Resolver
+    idx = ctx.idx
+    res = getattr(ctx, '_resolver', None)
+    if res is None:
+        res = ctx._resolver = Resolver(idx)
+    out: List[str] = []
+    seen = set()
+    frontier = [fi]
+    for _ in range(depth + 1):
+        nxt = []
+        for f in frontier:
+            if f.id in seen:
+                continue
+            seen.add(f.id)
+            for n in walk_no_nested(f.node):
+                if isinstance(n, ast.Raise) and n.exc is not None and resolve_exc(ctx, f, n.exc) in exc_ids:
+                    out.append(f'{f.file}:{n.lineno}')
+                if isinstance(n, ast.Call):
+                    try:
+                        for c in res.resolve_call(f, n, None, False):
+                            if isinstance(c, FuncInfo):
+                                nxt.append(c)
+                    except Exception:
+                        pass
+            # nested functions / lambdas defined inside
+        frontier = nxt
+    return out
 
 
 def node_in(outer: ast.AST, inner: ast.AST) -> bool:
